@@ -225,3 +225,63 @@ def meta_unit(spec):
             'obligations': obls, 'wall': time.time() - t0,
             'trusted': ['translation of the pattern into an SMT regular expression (\\s \\d \\w as their '
                         'ASCII sets; a counterexample is replayed on the real re engine)']}
+
+
+# ---------------------------------------------------------------------------------------
+# C10: message ids are computed with "whitespace collapsed and trimmed".  The K3 model of the
+# emitted helper __re_whitespace (pyvc/k3.py collapse_ws) is `re.sub(r'\s+', ' ', s)`; this unit
+# checks that the helper the compiler really emits is that function.
+# ---------------------------------------------------------------------------------------
+def whitespace_unit(spec):
+    import functools
+    import time
+    from . import k2
+    from .solve import solve_text
+    t0 = time.time()
+    f = k2.prelude_objects().get('__re_whitespace')
+    o = {'name': 'prelude.__re_whitespace', 'expect': 'valid', 'okind': 'struct', 'backend': 'regexlang',
+         'time': 0.0, 'tried': 'shape',
+         'text': "the emitted helper __re_whitespace replaces every maximal run of whitespace by one "
+                 "blank: functools.partial(P.sub, ' ') with L(P) = L(\\s+)"}
+    pat = getattr(getattr(f, 'func', None), '__self__', None)
+    shape = isinstance(f, functools.partial) and isinstance(pat, re.Pattern) and \
+        getattr(f.func, '__name__', '') == 'sub' and f.args == (' ',) and not f.keywords
+    detail = {'helper': repr(f)}
+    ok = False
+    if shape:
+        try:
+            a, b = translate(pat), translate(r'\s+')
+            verdicts = []
+            for x, y in ((a, b), (b, a)):
+                q, _ = inclusion_query(x, y)
+                r = solve_text(q, False, t_z3=spec.get('t_z3', 40), t_cvc5=spec.get('t_cvc5', 40))
+                verdicts.append(r['verdict'])
+                o['backend'], o['tried'] = r['backend'], r['tried']
+            ok = verdicts == ['unsat', 'unsat']
+            detail['inclusions'] = verdicts
+            if 'unknown' in verdicts and 'sat' not in verdicts:
+                o['status'] = 'unknown'
+        except Untranslatable as e:
+            detail['untranslatable'] = str(e)
+            o['status'] = 'unknown'
+    if 'status' not in o:
+        o['status'] = 'discharged' if ok else 'failed'
+    if o['status'] == 'failed':
+        o['verifier_output'] = detail
+        # replay on the real helper
+        for s in ('a\nb', 'a\tb', 'a  b', ' a ', 'a \n b'):
+            try:
+                got = f(s)
+            except Exception as e:   # noqa
+                got = 'raised %r' % (e,)
+            want = re.sub(r'\s+', ' ', s)
+            if got != want:
+                o['confirmed'] = True
+                o['witness'] = {'inputs': {'text': s},
+                                'detail': '__re_whitespace(%r) == %r, collapsing gives %r' % (s, got, want)}
+                break
+        else:
+            o['confirmed'] = False
+    return {'unit': 'regexlang.whitespace', 'function': 'compiler.py::Compiler.visit_Module (emitted prelude)',
+            'obligations': [o], 'wall': time.time() - t0,
+            'trusted': ['translation of patterns into SMT regular expressions (ASCII whitespace)']}
